@@ -345,56 +345,57 @@ func indexResolution(c *Ctx, rule string) {
 		c.undecided(rule, "resolveIndex", "", "anchor (*Value).resolveIndex not found")
 		return
 	}
-	rcs := p.successResults(ri)
-	got := map[string]bool{}
-	for _, rc := range rcs {
-		got[rc.Value] = true
-	}
-	c.check(len(got) == 1 && got["phi((len(v.Array) + int(*member.Num)) | int(*member.Num))"], rule, "resolve-result", p.Pos(ri.Pos()), "index or len+index", "index resolution returns "+keysOf(got)+"; expected int(*member.Num) or len(v.Array)+int(*member.Num)")
-	// the len+index variant only under index < 0; error under len+index < 0; plain variant under index >= 0
+	// every way a value is returned, with the relations that hold on that way (a merged return is
+	// taken apart edge by edge, so `if … { i += len }; return i` and two separate returns look alike)
 	F := FactsOf(ri)
 	ek := EKOf(p)
-	errOK, plainOK := false, false
+	type way struct {
+		val string
+		g   map[string]bool
+	}
+	var ways []way
+	relsText := func(fs factSet) map[string]bool {
+		g := map[string]bool{}
+		for _, rl := range fs.Rels() {
+			g[p.Render(rl.x)+" "+rl.op.String()+" "+p.Render(rl.y)] = true
+		}
+		return g
+	}
+	errOK := false
+	const I, LI = "int(*member.Num)", "(int(*member.Num) + len(v.Array))"
 	for _, r := range returnsOf(ri) {
 		res := effectiveResults(r)
-		var gs []string
-		for _, rl := range F.At(r.Block()).Rels() {
-			gs = append(gs, p.Render(rl.x)+" "+rl.op.String()+" "+p.Render(rl.y))
-		}
-		g := setOf(gs)
 		if !ek.KindsAt(res[1], F.At(r.Block())).Has(KNil) {
-			errOK = g["int(*member.Num) < 0"] && g["(len(v.Array) + int(*member.Num)) < 0"]
-		}
-	}
-	// success return: phi edges
-	for _, r := range returnsOf(ri) {
-		phi, ok := effectiveResults(r)[0].(*ssa.Phi)
-		if !ok {
+			g := relsText(F.At(r.Block()))
+			errOK = g[I+" < 0"] && g[LI+" < 0"]
 			continue
 		}
-		good := true
-		for i, e := range phi.Edges {
-			fs := F.OnEdge(phi.Block().Preds[i], phi.Block())
-			var gs []string
-			for _, rl := range fs.Rels() {
-				gs = append(gs, p.Render(rl.x)+" "+rl.op.String()+" "+p.Render(rl.y))
+		if phi, ok := res[0].(*ssa.Phi); ok {
+			for i, e := range phi.Edges {
+				ways = append(ways, way{p.Render(e), relsText(F.OnEdge(phi.Block().Preds[i], phi.Block()))})
 			}
-			g := setOf(gs)
-			switch p.Render(e) {
-			case "int(*member.Num)":
-				if !g["int(*member.Num) >= 0"] {
-					good = false
-				}
-			case "(len(v.Array) + int(*member.Num))":
-				if !g["int(*member.Num) < 0"] || !g["(len(v.Array) + int(*member.Num)) >= 0"] {
-					good = false
-				}
-			default:
-				good = false
-			}
+		} else {
+			ways = append(ways, way{p.Render(res[0]), relsText(F.At(r.Block()))})
 		}
-		plainOK = good
 	}
+	got := map[string]bool{}
+	plainOK := len(ways) > 0
+	for _, w := range ways {
+		got[w.val] = true
+		switch w.val {
+		case I:
+			if !w.g[I+" >= 0"] {
+				plainOK = false
+			}
+		case LI:
+			if !w.g[I+" < 0"] || !w.g[LI+" >= 0"] {
+				plainOK = false
+			}
+		default:
+			plainOK = false
+		}
+	}
+	c.check(len(got) == 2 && got[I] && got[LI], rule, "resolve-result", p.Pos(ri.Pos()), "index or len+index", "index resolution returns "+keysOf(got)+"; expected int(*member.Num) or len(v.Array)+int(*member.Num)")
 	c.check(errOK, rule, "resolve-before-start-is-error", p.Pos(ri.Pos()), "an index before the start is an error", "the `index out of range` error is not returned exactly under index < 0 && len+index < 0")
 	c.check(plainOK, rule, "resolve-negative-from-end", p.Pos(ri.Pos()), "index >= 0 is used as is; index < 0 becomes len+index when that is >= 0", "the resolved index is not (index if index >= 0) / (len+index if index < 0 and len+index >= 0)")
 	// read accessor: array arm
